@@ -3,8 +3,9 @@
    applied consistently to the whole program) and under permutation of the function, process and
    assumed-name declarations.  Through C07 (tc_verdict) this is invariance of the checker's verdict.
 
-   Admissibility of a channel renaming r at the level of the AST: r is INJECTIVE.  Nothing else is
-   needed there: the provider is recognised by the is_self mark or by equality of identifiers with
+   Admissibility of a channel renaming r at the level of the AST: r is INJECTIVE and keeps the
+   identifier "" (the bare keyword `self`, which F31 forbids as the name of a process).  Nothing else
+   is needed there: the provider is recognised by the is_self mark or by equality of identifiers with
    the bound provider name, both preserved by an injective r; `execN` / `root` are ordinary
    identifiers of the AST; keywords do not exist at this level.  (At the level of TEXTS the
    renaming must in addition avoid keywords and the generated names execN, which the parser
@@ -60,6 +61,8 @@ Section Renaming.
 Variables r rf : string -> string.
 Hypothesis r_inj : forall a b, r a = r b -> a = b.
 Hypothesis rf_inj : forall a b, rf a = rf b -> a = b.
+(* the identifier "" (the bare keyword self) is kept: F31 distinguishes it *)
+Hypothesis r_empty : r "" = "".
 
 Notation rn := (ren_name r).
 Notation rc := (ren_ctx r).
@@ -397,7 +400,7 @@ Proof. intros H. induction 1; cbn; constructor; auto. Qed.
 
 Theorem typing_equivariant_chan p : ProgOK teq p -> ProgOK teq (ren_program r rf p).
 Proof.
-  intros [pe [[ET [EF [EP EA]]] [SD NF [Sg [SO [FO PO]]] NA TA NP DJ U1 U2 U3 AC]]].
+  intros [pe [[ET [EF [EP EA]]] [SD NF [Sg [SO [FO PO]]] NA TA NP DJ U1 U2 U3 AC PN]]].
   exists (ren_program r rf pe). split.
   - repeat split; cbn [p_types p_funs p_procs p_assumed ren_program]; auto.
     + eapply Forall2_map; eauto using elab_fun_ren.
@@ -420,6 +423,9 @@ Proof.
     + rewrite uses_ren, idents_ren. intros x Hx. apply in_map_iff in Hx. destruct Hx as [y [<- Hy]].
       rewrite In_ren. auto.
     + now rewrite deps_acyclic_ren.
+    + intros q n Hq Hn [S E]. apply in_map_iff in Hq. destruct Hq as [q0 [<- Hq0]].
+      cbn [pr_providers ren_proc] in Hn. apply in_map_iff in Hn. destruct Hn as [n0 [<- Hn0]].
+      cbn in S, E. rewrite <- r_empty in E. apply r_inj in E. exact (PN q0 n0 Hq0 Hn0 (conj S E)).
 Qed.
 End Prog.
 End Renaming.
@@ -460,11 +466,13 @@ Lemma bijection_inj (r r' : string -> string) : (forall x, r' (r x) = x) -> fora
 Proof. intros H a b E. rewrite <- (H a), <- (H b). now rewrite E. Qed.
 
 (* C14, verdict half, on the declarative judgement: channel identifiers by r, function names by rf *)
-Theorem typing_equivariant teq r r' rf rf' p : bijection r r' -> bijection rf rf' ->
+Theorem typing_equivariant teq r r' rf rf' p : bijection r r' -> bijection rf rf' -> r "" = "" ->
   (ProgOK teq p <-> ProgOK teq (ren_program r rf p)).
 Proof.
-  intros [H1 H2] [F1 F2]. split.
-  - apply typing_equivariant_chan; eapply bijection_inj; eauto.
+  intros [H1 H2] [F1 F2] E0.
+  assert (E0' : r' "" = "") by (rewrite <- E0 at 1; apply H1).
+  split.
+  - apply typing_equivariant_chan; auto; eapply bijection_inj; eauto.
   - intros OK. rewrite <- (ren_program_inv r r' rf rf' H1 F1 p).
     apply typing_equivariant_chan; auto; eapply bijection_inj; eauto.
 Qed.
